@@ -105,6 +105,28 @@ def load_cases(prop: Optional[str] = None) -> List[dict]:
         with open(meta, encoding="utf-8") as fh:
             m = json.load(fh)
         cases.append({"name": "seeded-" + m["id"], "property": m["property"], "patch": os.path.relpath(os.path.join(os.path.dirname(meta), "patch.diff"), VERIF), "expect": ""})
+    # behaviour-preserving refactorings (written by independent sub-agents or ported by hand):
+    # silent cases for every property whose anchor files they touch
+    anchors = {}
+    with open(os.path.join(VERIF, "properties.jsonl"), encoding="utf-8") as fh:
+        for line in fh:
+            pr = json.loads(line)
+            anchors[pr["id"]] = set(pr["anchors"]["files"])
+    claimed = set()
+    try:
+        with open(os.path.join(VERIF, "MANIFEST.json"), encoding="utf-8") as fh:
+            claimed = {c["property_id"] for c in json.load(fh)["checks"]}
+    except (OSError, ValueError):
+        pass
+    for patch in sorted(glob.glob(os.path.join(VERIF, "selftest", "benign", "*.diff"))):
+        touched = set()
+        with open(patch, encoding="utf-8") as fh:
+            for line in fh:
+                if line.startswith("+++ b/"):
+                    touched.add(line[6:].strip())
+        for pid, files in sorted(anchors.items()):
+            if pid in claimed and (touched & files):
+                cases.append({"name": "benign-" + os.path.basename(patch)[:-5], "property": pid, "patch": os.path.relpath(patch, VERIF), "silent": True})
     try:
         from . import mutate
 
